@@ -12,6 +12,8 @@ with the family reference (shared with C15.a).
 Round 4: every recursive call of generate_penalty and every stacked term
 receives the caller's settings; both generators read tol / rel under their own
 names.
+Round 5 (hunt): penalty_parser's renames are whole-name substitutions into
+names bound in generate_conditions' namespace (shared with C13.k).
 NOT decided: values of the generated functions.
 """
 import ast
@@ -147,3 +149,10 @@ def constraint_and_penalty_share_their_settings(ctx):
     stack = [c for c in ast.walk(g.node) if isinstance(c, ast.Call) and isinstance(c.func, ast.Name) and c.func.id == 'penalty']
     ctx.check(bool(stack) and all(any(k.arg is None and isinstance(k.value, ast.Name) and k.value.id == kw for k in c.keywords) for c in stack), 'generate_penalty#stack-settings',
               'every stacked term is built as penalty(condition, **%s)' % kw, 'a stacked penalty term is built without the caller\'s settings', g, g.node)
+
+
+@rule('C14.f', min_instances=3)
+def condition_text_only_names_bound_functions(ctx):
+    """penalty_parser renames mystic's spread( / mean( / variance( (/ product() into numpy's ptp( / average( / var( (/ prod(); generate_conditions executes the result: each target name is bound there (shared with C13.k)"""
+    from .c13 import rewritten_names_are_bound
+    rewritten_names_are_bound(ctx, 'mystic.symbolic:penalty_parser', 'mystic.symbolic:generate_conditions', 'penalty_parser')
